@@ -180,10 +180,7 @@ def run(which=None):
             continue
         try:
             files = fn()
-        except TranslateError as e:
-            errors[name] = str(e)
-            continue
-        except (SyntaxError, OSError) as e:
+        except Exception as e:   # fail closed: anything unexpected is a translator failure
             errors[name] = f"{type(e).__name__}: {e}"
             continue
         for fname, text in files.items():
